@@ -19,7 +19,7 @@ SCALARS = (
 CLSOBJS = [("cls", c) for c in (INT, BOOL, FLOAT, STR, CID[U.A], CID[U.B], CID[U.D], CID[U.Color], CID[U.IE], LIST, DICT, TUPLE, SEQUENCE)]
 LITERALS = [o for o in SCALARS if o[0] in ("int", "bool", "str", "bytes", "none") or (o[0] == "inst" and o[1] in (CID[U.Color], CID[U.IE]))]
 TYPED = [0, INT, BOOL, FLOAT, COMPLEX, STR, BYTES, NONE, TUPLE, LIST, SET, FSET, DICT, TYPE, SEQUENCE, ITERABLE, COLLECTION,
-         CONTAINER, MAPPING] + USER
+         CONTAINER, MAPPING] + USER + [CID[c] for c in CLASSES if c.__name__ in ("Enum", "IntEnum", "EnumType", "EnumMeta", "ABCMeta")]
 GEN1 = [LIST, SET, FSET, TUPLE, SEQUENCE, ITERABLE, COLLECTION, CONTAINER, MUTSEQ, ABSSET]
 GEN2 = [DICT, MAPPING]
 
